@@ -38,6 +38,9 @@ type mpTx struct {
 	pk     cryptotypes.PubKey
 	prio   int64 // CheckTx priority handed in through the context
 	shape  string
+	// optional second signer: the transaction still belongs to its first signer (sender, nonce)
+	coPk    cryptotypes.PubKey
+	coNonce uint64
 }
 
 func (t *mpTx) GetMsgs() []sdk.Msg                        { return t.msgs }
@@ -45,7 +48,11 @@ func (t *mpTx) GetMsgsV2() ([]protov2.Message, error)     { return nil, nil }
 func (t *mpTx) GetSigners() ([][]byte, error)             { return [][]byte{t.pk.Address()}, nil }
 func (t *mpTx) GetPubKeys() ([]cryptotypes.PubKey, error) { return []cryptotypes.PubKey{t.pk}, nil }
 func (t *mpTx) GetSignaturesV2() ([]signing.SignatureV2, error) {
-	return []signing.SignatureV2{{PubKey: t.pk, Sequence: t.nonce}}, nil
+	sigs := []signing.SignatureV2{{PubKey: t.pk, Sequence: t.nonce}}
+	if t.coPk != nil {
+		sigs = append(sigs, signing.SignatureV2{PubKey: t.coPk, Sequence: t.coNonce})
+	}
+	return sigs, nil
 }
 
 // the class the *statement* assigns (independent of the implementation's numeric priorities):
@@ -173,6 +180,7 @@ func TestC19_MempoolModel(t *testing.T) {
 		nextID := 0
 		var log []string
 		removesBeforeSelect, selects, selectsAfterRemove := 0, 0, 0
+		coSigned := false
 		nSenders := rapid.IntRange(1, 6).Draw(t, "nSenders")
 		insert := func(t *rapid.T) {
 			s := rapid.IntRange(0, nSenders-1).Draw(t, "sender")
@@ -189,6 +197,14 @@ func TestC19_MempoolModel(t *testing.T) {
 			shape := rapid.SampledFrom(c19Shapes).Draw(t, "shape")
 			prio := rapid.OneOf(rapid.Int64Range(0, 5), rapid.Int64Range(0, 1<<40), rapid.Just(int64(0))).Draw(t, "ctxPriority")
 			tx := &mpTx{id: nextID, sender: s, nonce: n, msgs: c19Msgs(shape), pk: c19Keys[s], prio: prio, shape: shape}
+			if rapid.IntRange(0, 5).Draw(t, "coSigned") == 0 {
+				// co-signed by another account, whose own (sender, sequence) slot may well be taken by a pending tx of its own
+				co := rapid.IntRange(0, nSenders-1).Draw(t, "coSigner")
+				if co != s {
+					tx.coPk, tx.coNonce = c19Keys[co], uint64(rapid.IntRange(0, 5).Draw(t, "coNonce"))
+					coSigned = true
+				}
+			}
 			nextID++
 			ctx := sdk.NewContext(nil, cmtproto.Header{}, false, nil).WithPriority(prio)
 			if err := mp.Insert(ctx, tx); err != nil {
@@ -280,6 +296,9 @@ func TestC19_MempoolModel(t *testing.T) {
 			labels = append(labels, "selectAfterRemove")
 		}
 		trace := strings.Join(log, " ")
+		if coSigned {
+			labels = append(labels, "coSignedTx")
+		}
 		evid.Case(t.Name(), trace, nt, labels, func() any { return trace })
 	})
 }
